@@ -179,15 +179,15 @@ Example C08_dt_ex_date_in_lex :
 Proof. vm_compute. repeat split; reflexivity. Qed.
 
 (** ---- 6. totality: the reader's outcome is a ValidationError when the (anchored)
-    regex does not match the whole text, and otherwise depends only on the validity of the scanned
-    fields [dt_fields s]: Ok, or the ValueError of datetime(...) /
-    pytz.FixedOffset(...) escaping (the escape property C10 is about).  No
-    other exception is possible. *)
+    regex does not match the whole text or when the scanned fields [dt_fields s] are out of
+    range (month 13, 23:59:60, +24:00: the ValueError of datetime(...) / pytz.FixedOffset(...)
+    is caught and reported as ValidationError - repaired in /repo), and Ok otherwise.
+    No exception escapes. *)
 Theorem C08_dt_datetime_reader_shape : forall s,
   datetime_from_unicode_iso s =
   match dt_fields s with
   | None => VFault
-  | Some v => if valid_datetime v then Ok v else Crash ValueError
+  | Some v => if valid_datetime v then Ok v else VFault
   end.
 Proof. exact datetime_reader_shape. Qed.
 
@@ -201,30 +201,26 @@ Example C08_dt_ex_datetime_reader_shape :
   /\ xs_dateTime s = None.
 Proof. vm_compute. auto. Qed.
 
-Theorem C08_dt_datetime_only_valueerror : forall s e,
-  datetime_from_unicode_iso s = Crash e -> e = ValueError.
-Proof. exact datetime_only_valueerror. Qed.
+Theorem C08_dt_datetime_never_crashes : forall s, is_crash (datetime_from_unicode_iso s) = false.
+Proof. exact datetime_never_crashes. Qed.
 
-(** 1999-12-31T23:59:60Z: a leap second is a ValueError, not a ValidationError *)
-Example C08_dt_ex_datetime_only_valueerror :
-  datetime_from_unicode_iso [49; 57; 57; 57; 45; 49; 50; 45; 51; 49; 84; 50; 51; 58; 53; 57;
-                             58; 54; 48; 90] = Crash ValueError.
-Proof. vm_compute. auto. Qed.
+Theorem C08_dt_datetime_vfault_iff : forall s,
+  datetime_from_unicode_iso s = VFault <->
+  dt_fields s = None \/ exists v, dt_fields s = Some v /\ valid_datetime v = false.
+Proof. exact datetime_vfault_iff. Qed.
 
-Theorem C08_dt_datetime_crash_iff : forall s,
-  datetime_from_unicode_iso s = Crash ValueError <->
-  exists v, dt_fields s = Some v /\ valid_datetime v = false.
-Proof. exact datetime_crash_iff. Qed.
-
-(** 2020-13-01T00:00:00 (month 13) and "2020-01-01 00:00:00+24:00" (offset 1440)
-    escape as ValueError; "x" is a ValidationError *)
-Example C08_dt_ex_datetime_crash :
+(** 1999-12-31T23:59:60Z (a leap second), 2020-13-01T00:00:00 (month 13) and
+    "2020-01-01 00:00:00+24:00" (offset 1440) match the regex with out-of-range fields: a
+    ValidationError; "x" does not match: a ValidationError as well *)
+Example C08_dt_ex_datetime_vfault :
+  let s0 := [49; 57; 57; 57; 45; 49; 50; 45; 51; 49; 84; 50; 51; 58; 53; 57; 58; 54; 48; 90] in
   let s1 := [50; 48; 50; 48; 45; 49; 51; 45; 48; 49; 84; 48; 48; 58; 48; 48; 58; 48; 48] in
   let s2 := [50; 48; 50; 48; 45; 48; 49; 45; 48; 49; 32; 48; 48; 58; 48; 48; 58; 48; 48;
              43; 50; 52; 58; 48; 48] in
-  datetime_from_unicode_iso s1 = Crash ValueError
+  datetime_from_unicode_iso s0 = VFault
+  /\ datetime_from_unicode_iso s1 = VFault
   /\ dt_fields s1 = Some (mkdt (mkdate 2020 13 1) (mktod 0 0 0 0) None)
-  /\ datetime_from_unicode_iso s2 = Crash ValueError
+  /\ datetime_from_unicode_iso s2 = VFault
   /\ dt_fields s2 = Some (mkdt (mkdate 2020 1 1) (mktod 0 0 0 0) (Some 1440))
   /\ datetime_from_unicode_iso [120] = VFault /\ dt_fields [120] = None.
 Proof. vm_compute. repeat split; reflexivity. Qed.
@@ -248,41 +244,33 @@ Example C08_dt_ex_datetime_no_trailing_junk :
 Proof. vm_compute. auto. Qed.
 
 (** the two smaller readers *)
-Theorem C08_dt_time_only_valueerror : forall s e, time_from_unicode s = Crash e -> e = ValueError.
-Proof. exact time_only_valueerror. Qed.
+Theorem C08_dt_time_never_crashes : forall s, is_crash (time_from_unicode s) = false.
+Proof. exact time_never_crashes. Qed.
 
-(** 24:00:00 *)
-Example C08_dt_ex_time_only_valueerror :
-  time_from_unicode [50; 52; 58; 48; 48; 58; 48; 48] = Crash ValueError.
-Proof. vm_compute. auto. Qed.
+Theorem C08_dt_time_vfault_iff : forall s,
+  time_from_unicode s = VFault <->
+  scan_time s = None \/ exists h m x f rest, scan_time s = Some (h, m, x, f, rest)
+                                            /\ valid_tod (mktod h m x (usec_of f)) = false.
+Proof. exact time_vfault_iff. Qed.
 
-Theorem C08_dt_time_crash_iff : forall s,
-  time_from_unicode s = Crash ValueError <->
-  exists h m x f rest, scan_time s = Some (h, m, x, f, rest)
-                       /\ valid_tod (mktod h m x (usec_of f)) = false.
-Proof. exact time_crash_iff. Qed.
-
-(** 12:00:60 *)
-Example C08_dt_ex_time_crash :
-  time_from_unicode [49; 50; 58; 48; 48; 58; 54; 48] = Crash ValueError
+(** 24:00:00 and 12:00:60 *)
+Example C08_dt_ex_time_vfault :
+  time_from_unicode [50; 52; 58; 48; 48; 58; 48; 48] = VFault
+  /\ time_from_unicode [49; 50; 58; 48; 48; 58; 54; 48] = VFault
   /\ scan_time [49; 50; 58; 48; 48; 58; 54; 48] = Some (12, 0, 60, None, []).
 Proof. vm_compute. auto. Qed.
 
-Theorem C08_dt_date_only_valueerror : forall s e, date_from_unicode s = Crash e -> e = ValueError.
-Proof. exact date_only_valueerror. Qed.
+Theorem C08_dt_date_never_crashes : forall s, is_crash (date_from_unicode s) = false.
+Proof. exact date_never_crashes. Qed.
 
-(** 2020-00-10Z *)
-Example C08_dt_ex_date_only_valueerror :
-  date_from_unicode [50; 48; 50; 48; 45; 48; 48; 45; 49; 48; 90] = Crash ValueError.
-Proof. vm_compute. auto. Qed.
+Theorem C08_dt_date_vfault_iff : forall s,
+  date_from_unicode s = VFault <->
+  strptime_ymd s = None /\ (scan_date_tz s = None \/ exists d, scan_date_tz s = Some d /\ valid_date d = false).
+Proof. exact date_vfault_iff. Qed.
 
-Theorem C08_dt_date_crash_iff : forall s,
-  date_from_unicode s = Crash ValueError <->
-  strptime_ymd s = None /\ exists d, scan_date_tz s = Some d /\ valid_date d = false.
-Proof. exact date_crash_iff. Qed.
-
-(** 2021-02-29+01:00 *)
-Example C08_dt_ex_date_crash :
+(** 2020-00-10Z and 2021-02-29+01:00 *)
+Example C08_dt_ex_date_vfault :
   let s := [50; 48; 50; 49; 45; 48; 50; 45; 50; 57; 43; 48; 49; 58; 48; 48] in
-  date_from_unicode s = Crash ValueError /\ scan_date_tz s = Some (mkdate 2021 2 29).
+  date_from_unicode [50; 48; 50; 48; 45; 48; 48; 45; 49; 48; 90] = VFault
+  /\ date_from_unicode s = VFault /\ scan_date_tz s = Some (mkdate 2021 2 29).
 Proof. vm_compute. auto. Qed.
